@@ -88,6 +88,8 @@ class FakeSocket:
             cb = getattr(self.k, "on_fault", None)
             if cb is not None:
                 cb(self.name, op, e)
+            if op == "send" and e != errno.EWOULDBLOCK:
+                self.sk_err = True      # a socket that has reported an error is reported ready by select / poll from then on
             raise OSError(e, "injected %s" % errno.errorcode.get(e, e))
 
     # --- kernel readiness ---
@@ -95,7 +97,7 @@ class FakeSocket:
         return bool(self.inbox) or self.eof or bool(self.faults.get("recv"))
 
     def k_writable(self):
-        return self.room is None or self.room > 0 or bool(self.faults.get("send")) or self.peer_closed
+        return self.room is None or self.room > 0 or bool(self.faults.get("send")) or self.peer_closed or getattr(self, "sk_err", False)
 
     # --- socket API used by waitress ---
     def fileno(self):
@@ -346,12 +348,14 @@ class FakeSelect:
             if fd not in k.fds:
                 raise OSError(errno.EBADF, "Bad file descriptor in select set")
         rr, ww = self._ready(r, w)
+        # urgent (out-of-band) data pending: the descriptor is reported in the exceptional set as well
+        ee = [fd for fd in e if getattr(k.fds.get(fd), "oob", False)]
         if not rr and not ww:
             self.empty_returns += 1
             S = dsched.S
             if S is not None and timeout:
                 S.clock += timeout
-        return rr, ww, []
+        return rr, ww, ee
 
     def poll(self):
         return _Poller(self)
@@ -383,6 +387,8 @@ class _Poller:
                     ev |= sel.POLLIN
                 if fl & sel.POLLOUT and k.writable(fd):
                     ev |= sel.POLLOUT
+                if fl & sel.POLLPRI and getattr(k.fds.get(fd), "oob", False) and ev:
+                    ev |= sel.POLLPRI
                 if ev:
                     out.append((fd, ev))
             return out
